@@ -81,6 +81,18 @@ func (t *VariantType) Equals(o interface{}, g px.Guard) bool {
 	return ok && len(t.types) == len(ot.types) && px.IncludesAll(t.types, ot.types, g) && px.IncludesAll(ot.types, t.types, g)
 }
 
+func (t *VariantType) Get(key string) (value px.Value, ok bool) {
+	switch key {
+	case `types`:
+		tps := make([]px.Value, len(t.types))
+		for i, t := range t.types {
+			tps[i] = t
+		}
+		return WrapValues(tps), true
+	}
+	return nil, false
+}
+
 func (t *VariantType) Generic() px.Type {
 	// members that generalize to the same type leave one member: that is the member itself, not a Variant of one (which
 	// prints as Variant[T] and is read back as T)
